@@ -895,6 +895,8 @@ namespace fixedmath
       fixed_internal res_tan {};
       if( x <= fixpidiv4.v )
         res_tan = tan_<prec_+prec_inc>(x<<prec_inc)>>prec_inc;
+      else if( x >= fixpidiv2.v + fixpidiv4.v ) //tan(x) = -tan(phi-x), the series is valid only up to phi/4
+        res_tan = -(tan_<prec_+prec_inc>((phi.v - x)<<prec_inc)>>prec_inc);
       else
         res_tan = div_<prec_>( one_, tan_<prec_+prec_inc>( (fixpidiv2.v<<prec_inc) - (x<<prec_inc) )>>prec_inc );
       if( sign_ )
